@@ -98,7 +98,38 @@ pub enum Term {
 }
 
 impl Term {
+    /// the termination section as a user writes it, when this limit can be written there (runtime limits are configured as
+    /// hh:mm:ss, so the millisecond budgets of the exhaustion clauses cannot)
+    pub fn config_json(&self) -> Option<serde_json::Value> {
+        use serde_json::json;
+        match self {
+            Term::Unlimited => Some(json!({"type": "iterations", "limit": u64::MAX / 4})),
+            Term::Iterations(l) => Some(json!({"type": "iterations", "limit": l})),
+            Term::Size(l) => Some(json!({"type": "solution_size", "limit": l})),
+            Term::RuntimeMs { limit_ms, frequency } => {
+                if limit_ms % 1000 != 0 {
+                    return None;
+                }
+                let sec = limit_ms / 1000;
+                Some(json!({"type": "query_runtime", "limit": format!("{:02}:{:02}:{:02}", sec / 3600, (sec / 60) % 60, sec % 60), "frequency": frequency}))
+            }
+            Term::Combined(v) => {
+                let members: Option<Vec<serde_json::Value>> = v.iter().map(|t| t.config_json()).collect();
+                members.map(|m| json!({"type": "combined", "models": m}))
+            }
+        }
+    }
+    /// built by the application's builder from the configuration section where the limit can be written there
     pub fn real(&self) -> TerminationModel {
+        if let Some(cfg) = self.config_json() {
+            return match routee_compass::app::compass::config::termination_model_builder::TerminationModelBuilder::build(&cfg, None) {
+                Ok(t) => t,
+                Err(e) => panic!("harness: the library rejects the termination section {}: {}", cfg, e),
+            };
+        }
+        self.constructed()
+    }
+    pub fn constructed(&self) -> TerminationModel {
         match self {
             Term::Unlimited => TerminationModel::IterationsLimit { limit: u64::MAX / 4 },
             Term::Iterations(l) => TerminationModel::IterationsLimit { limit: *l },
@@ -107,7 +138,7 @@ impl Term {
                 limit: Duration::from_millis(*limit_ms),
                 frequency: *frequency,
             },
-            Term::Combined(v) => TerminationModel::Combined { models: v.iter().map(|t| t.real()).collect() },
+            Term::Combined(v) => TerminationModel::Combined { models: v.iter().map(|t| t.constructed()).collect() },
         }
     }
 }
